@@ -216,11 +216,11 @@ theorem layoutText_false (p : GbRec × RecLayout) : layoutText p.1 p.2 false = u
 /-- the hypothesis on a record of a multi-record file: in the domain, and no line other than the
 terminator ends in `//` -/
 def RecOK (p : GbRec × RecLayout) : Prop :=
-  wf p.1 = true ∧ noSlashEnd p.1 p.2 = true ∧ orgOmitted p.1 p.2 = false
+  wf p.1 = true ∧ noSlashEnd p.1 p.2 = true
 
 /-- the same over the whole quantifier (`wfLoose`: repeated qualifier keys included) -/
 def RecOKL (p : GbRec × RecLayout) : Prop :=
-  wfLoose p.1 = true ∧ noSlashEnd p.1 p.2 = true ∧ orgOmitted p.1 p.2 = false
+  wfLoose p.1 = true ∧ noSlashEnd p.1 p.2 = true
 
 theorem RecOK.loose {p : GbRec × RecLayout} (h : RecOK p) : RecOKL p := ⟨(wf_loose h.1).1, h.2⟩
 
@@ -231,7 +231,7 @@ theorem plain_init (p : GbRec × RecLayout) (h : RecOKL p) : ∀ l ∈ initOf p,
   intro l hl
   have hmem : l ∈ layout p.1 p.2 := by rw [layout_eq_init]; exact List.mem_append_left _ hl
   refine ⟨nl_not_mem_of_PL (PL_layout p.1 p.2 h.1 l hmem), ?_⟩
-  have := h.2.1
+  have := h.2
   unfold noSlashEnd at this
   rw [List.all_eq_true] at this
   have := this l hl
@@ -298,7 +298,7 @@ def fileText (ps : List (GbRec × RecLayout)) (fnl : Bool) : Str :=
   join c!"\n" ((ps.map fun p => layout p.1 p.2).flatten) ++ (if fnl then c!"\n" else [])
 
 theorem parse_recText (p : GbRec × RecLayout) (h : RecOKL p) : parse (recText (initOf p)) = .ok (toSequenceM p.1) := by
-  rw [← layoutText_true]; exact parse_layoutText_loose p.1 p.2 true h.1 h.2.2
+  rw [← layoutText_true]; exact parse_layoutText_loose p.1 p.2 true h.1
 
 theorem mapOutcome_map {α β γ : Type} (f : β → Outcome γ) (g : α → β) (l : List α) :
     mapOutcome f (l.map g) = mapOutcome (fun a => f (g a)) l := by
@@ -366,7 +366,7 @@ theorem parseMulti_fileText (ps : List (GbRec × RecLayout)) (fnl : Bool) (hne :
     simp only [Bool.not_true, Bool.false_eq_true, if_false]
     -- all pieces: the records with their line break, then the last one without
     have hlastparse : parse (unlines (initOf p) ++ c!"//") = .ok (toSequenceM p.1) := by
-      rw [← layoutText_false]; exact parse_layoutText_loose p.1 p.2 false hp.1 hp.2.2
+      rw [← layoutText_false]; exact parse_layoutText_loose p.1 p.2 false hp.1
     have hall : ∀ (A : List Str) (B : List Sequence) (x : Str) (y : Sequence), mapOutcome parse A = .ok B → parse x = .ok y →
         mapOutcome parse (A ++ [x]) = .ok (B ++ [y]) := by
       intro A
